@@ -357,7 +357,7 @@ func (fs faultsim) Run(c *Case, dir string) *Outcome {
 			kinds := []string{"eio"}
 			switch op {
 			case "write":
-				kinds = []string{"eio", "short", "enospc"}
+				kinds = []string{"eio", "short", "enospc", "short72"}
 			case "truncate":
 				kinds = []string{"enospc", "eio"}
 			}
@@ -368,8 +368,12 @@ func (fs faultsim) Run(c *Case, dir string) *Outcome {
 		if mp := c.Params["max_plans"]; mp > 0 && len(plans) > mp {
 			t := sim.NewTape(c.Seed, c.Run, "fault")
 			// always include the last calls (meta write and final sync), sample the rest
-			keep := plans[len(plans)-3:]
-			rest := plans[:len(plans)-3]
+			nk := 5 // the meta write in all its kinds and the final sync
+			if nk > len(plans) {
+				nk = len(plans)
+			}
+			keep := append([]sim.FaultPlan(nil), plans[len(plans)-nk:]...)
+			rest := plans[:len(plans)-nk]
 			for len(keep) < mp && len(rest) > 0 {
 				i := t.Intn(len(rest))
 				keep = append(keep, rest[i])
